@@ -76,6 +76,14 @@ def gen_fn_scenario(rng: random.Random, static_only=True, simple_sigs=False, bod
         # now and then one position carries plain classes only although classes are passed there: the entry point
         # keys it by type(x) (the metaclass), and so must every rewritten recurse / call_next site
         plain_pos = rng.randrange(npos) if rng.random() < 0.5 else None
+    # type-valued arguments, now and then: the leading position is strictly positional (the methods name it
+    # differently) AND optional in some method, its annotations are plain classes, and the type[...] annotations
+    # sit on the uniformly named positions after it — the entry point numbers the named positions after ALL the
+    # strictly positional ones, required or optional
+    lead_strict_opt = type_args and rng.random() < 0.2
+    if lead_strict_opt:
+        npos = max(npos, 2)
+        plain_pos = 0
     defs = []
     # instances of every user class (two of some, so that identity matters)
     args = []
@@ -93,10 +101,15 @@ def gen_fn_scenario(rng: random.Random, static_only=True, simple_sigs=False, bod
         else:
             maxpos = rng.choice([npos] * 4 + list(range(0, npos + 1)))
             reqpos = maxpos if rng.random() < 0.6 else rng.randint(0, maxpos)
+        if lead_strict_opt:
+            maxpos = npos
+            reqpos = 0 if i % 2 == 1 else rng.choice([0, npos, npos])
         npo = maxpos if posonly_all else (rng.randint(0, maxpos) if rng.random() < 0.25 else 0)
         params = []
         for j in range(maxpos):
             name = j if uniform else (j + 3 * rng.randint(0, 1))
+            if lead_strict_opt:
+                name = (3 * (i % 2)) if j == 0 else j
             params.append({"name": name, "kind": "po" if j < npo else "pk", "req": j < reqpos, "ty": rng.choice(plain_pool if (type_args and j == plain_pos) else pool_types)})
         # declaration order of the keyword-only parameters varies from method to method (and is not alphabetical)
         for n in (kwnames if rng.random() < 0.5 else kwnames[::-1]):
